@@ -82,6 +82,12 @@ def response_hazards() -> Iterator[bytes]:
                 + rr(nm(b"pending", b"_c", b"_tcp", b"local"), 33, 0x8001, 120, struct.pack(">HHH", 0, 0, 80) + nm(h, b"local"))
             yield D.header(0x8400, 0, 1, 0, 0) + rr(nm(h, b"local"), 1, 0x8001, 120, bytes([10, 0, 0, 77]))
             yield D.header(0x8400, 0, 1, 0, 0) + rr(nm(b"h1", b"local"), 47, 0x8001, 120, nm(h, b"local") + b"\x00\x01\x40")
+    # labels that contain the separator itself: the decoded name text has an empty label in it (`evil.._c._tcp.local.`)
+    for h in (b".", b"..", b"evil.", b".evil", b"a..b", b"a.b", b"." * 63):
+        for typ in (b"_b", b"_c"):
+            yield D.header(0x8400, 0, 1, 0, 0) + rr(nm(typ, b"_tcp", b"local"), 12, 1, 4500, nm(h, typ, b"_tcp", b"local"))
+        yield D.header(0x8400, 0, 2, 0, 0) + rr(nm(b"_c", b"_tcp", b"local"), 12, 1, 4500, nm(b"pending", b"_c", b"_tcp", b"local")) \
+            + rr(nm(b"pending", b"_c", b"_tcp", b"local"), 33, 0x8001, 120, struct.pack(">HHH", 0, 0, 80) + nm(h, b"local"))
     # labels mixing invalid bytes (3 bytes each once replaced) with valid 2- and 3-byte characters, re-encoded length around 63/64
     for k in range(0, 22):
         for ch, w_ in (("é".encode(), 2), ("€".encode(), 3)):
